@@ -145,6 +145,8 @@ def run(ctx: Ctx) -> None:
     src += EXTRA
     conds += [Cond("twin", "refute", 60), Cond("canary_duplicate", "refute", 120)]
     ctx.ch_batch("c10", src, conds)
+    from props import C10_sched
+    C10_sched.run(ctx)
     ctx.functions_encoded += ["BaseOrchestrator.set_invocation_status/register_new_invocations", "BaseStateBackend.add_history/add_histories/get_history/wait_for_all_async_operations",
                               "Mem/SQLite _add_histories/_get_history", "Mem/SQLite _atomic_status_transition"]
     ctx.bounds = {"sequences": "2 free requests from REGISTERED; 2 free requests after [PENDING by r1] and after [PENDING, RUNNING by r1]; 14 statuses x 2 runners each",
